@@ -207,4 +207,57 @@ func TestVerifScenario_C07_same_block_repost(t *testing.T) {
 	fmt.Println("SCENARIO-OK usage equals footprint")
 }
 
+// C03: every listed prover is examined exactly once per reward block: a removal must not make the walk skip or repeat a prover.
+func TestVerifScenario_C03_walk_over_list_being_edited(t *testing.T) {
+	k, l, ctx := sSetup(t)
+	owner, a, b, c := sAddr(1), sAddr(2), sAddr(3), sAddr(4)
+	late := ctx.WithBlockHeight(k.GetParams(ctx).CheckWindow * 3)
+	f := types.UnifiedFile{Merkle: []byte("merkle"), Owner: owner.String(), Start: 1, Expires: 0, FileSize: 1000, ProofInterval: 100, MaxProofs: 3, Note: "{}"}
+	f.AddProver(ctx, k, a.String())                                        // A last proved at height 10: misses the window
+	f.AddProver(late.WithBlockHeight(late.BlockHeight()-1), k, b.String()) // B and C proved one block before the reward block
+	f.AddProver(late.WithBlockHeight(late.BlockHeight()-1), k, c.String())
+	for _, p := range []sdk.AccAddress{a, b, c} {
+		k.SetProviders(ctx, types.Providers{Address: p.String(), Ip: "https://p.example.com", Totalspace: "1000000", BurnedContracts: "0", Creator: p.String()})
+	}
+	// one gauge that releases 3000 at the reward time
+	coins := sdk.NewCoins(sdk.NewInt64Coin("ujkl", 6000))
+	start := late.BlockTime().Add(-time.Hour)
+	g := k.NewGauge(ctx.WithBlockTime(start), coins, late.BlockTime().Add(time.Hour))
+	acc, _ := types.GetGaugeAccount(g)
+	l.bal[acc.String()] = coins
+	k.RunRewardBlock(late)
+	got := func(x sdk.AccAddress) int64 { return l.get(x).AmountOf("ujkl").Int64() }
+	file, _ := k.GetFile(late, []byte("merkle"), owner.String(), 1)
+	if got(b) != got(c) || got(a) != 0 || len(file.Proofs) != 2 {
+		fmt.Printf("SCENARIO-VIOLATION list [A,B,C], A missed its window, B and C proved: rewards A=%d B=%d C=%d (B and C must be equal), provers left on the file: %d (must be 2)\n", got(a), got(b), got(c), len(file.Proofs))
+		return
+	}
+	fmt.Printf("SCENARIO-OK A=%d B=%d C=%d provers left %d\n", got(a), got(b), got(c), len(file.Proofs))
+}
+
+// C12: two purchases in one block with equal end and amount must not share one gauge record for two deposits.
+func TestVerifScenario_C12_same_block_gauges_collide(t *testing.T) {
+	k, l, ctx := sSetup(t)
+	ms := keeper.NewMsgServerImpl(*k)
+	a, b := sAddr(1), sAddr(2)
+	sFund(l, a, 1_000_000_000_000)
+	sFund(l, b, 1_000_000_000_000)
+	for _, who := range []sdk.AccAddress{a, b} {
+		if _, err := ms.BuyStorage(sdk.WrapSDKContext(ctx), &types.MsgBuyStorage{Creator: who.String(), ForAddress: who.String(), DurationDays: 30, Bytes: 3_000_000_000, PaymentDenom: "ujkl"}); err != nil {
+			fmt.Println("SCENARIO-ERROR", err)
+			return
+		}
+	}
+	gs := k.GetAllPaymentGauges(ctx)
+	for _, g := range gs {
+		acc, _ := types.GetGaugeAccount(g)
+		held := l.get(acc).AmountOf("ujkl")
+		if held.GT(g.Coins.AmountOf("ujkl")) {
+			fmt.Printf("SCENARIO-VIOLATION two purchases in one block: %d gauge record(s); gauge account holds %s but its record says %s was deposited (the first reward block releases the surplus at once)\n", len(gs), held, g.Coins.AmountOf("ujkl"))
+			return
+		}
+	}
+	fmt.Printf("SCENARIO-OK %d gauge record(s), every escrow within its record\n", len(gs))
+}
+
 var _ = jkltypes.Bech32Prefix
